@@ -64,6 +64,7 @@ pub enum Op {
     Remove { by: By, who: u8 },
     TransferOwnership { to: u8 },
     Execute { caller: u8, auth: ExecAuth, call: Call },
+    AdvanceDays(u8),
 }
 
 #[derive(Clone, Debug, Serialize, Deserialize)]
@@ -108,6 +109,7 @@ fn op() -> impl Strategy<Value = Op> {
         1 => (0u8..NA as u8).prop_map(|to| Op::TransferOwnership { to }),
         7 => (0u8..NA as u8, prop_oneof![6 => Just(ExecAuth::Caller), 1 => Just(ExecAuth::OwnerInstead), 1 => Just(ExecAuth::OtherOperator), 1 => Just(ExecAuth::Nobody)], call())
             .prop_map(|(caller, auth, call)| Op::Execute { caller, auth, call }),
+        1 => (1u8..60).prop_map(Op::AdvanceDays),
     ]
 }
 
@@ -170,9 +172,16 @@ impl Property for C17 {
         let mut former_owner: Option<Address> = None;
         let mut log_len: u32 = 0;
         let mut nontrivial = false;
+        let mut days_passed: u32 = 0;
 
         for (step, op) in case.ops.iter().enumerate() {
             match op {
+                Op::AdvanceDays(d) => {
+                    if days_passed + *d as u32 <= 200 {
+                        days_passed += *d as u32;
+                        advance_ledgers(&env, *d as u32 * 17280);
+                    }
+                }
                 Op::TransferOwnership { to } => {
                     env.mock_all_auths();
                     let new = pool[*to as usize % NA].clone();
